@@ -68,7 +68,8 @@ Definition horizon_guess (h : horizon) (calls : list gcall) (kd : gkind) (pvals 
 Record start_point : Type := mkStart {
   s_X : list (list F); s_U : list (list F); s_V : list F; s_VC : list (list F); s_VP : list (list F);
   s_T : F; s_t0 : F;
-  s_Xi : list (list (list F)); s_Xc : list (list (list (list F))); s_Zc : list (list (list (list F))) }.
+  s_Xi : list (list (list F)); s_Xc : list (list (list (list F))); s_Zc : list (list (list (list F)));
+  s_t0loc : list F; s_Tloc : list F }.     (* local time variables of localized / free grids *)
 
 Definition slots (n : nat) (f : nat -> F) : list F := map f (seq 0 n).
 
@@ -98,7 +99,12 @@ Definition start_values (oc : ocp) (nv nvc nvp : nat) (calls : list gcall) (pval
                     (seq 0 d)) (seq 0 M)) (seq 0 N);
      s_Zc := map (fun k => map (fun i => map (fun j =>
                     slots (o_nz oc) (fun s => start_of calls GZ s k (tki k i +! dt k *! nth j tau o0)))
-                    (seq 0 d)) (seq 0 M)) (seq 0 N) |}.
+                    (seq 0 d)) (seq 0 M)) (seq 0 N);
+     (* sampling_method.py:596-608: t0_local[k] = grid[k] (k = 1..N), T_local[k] = grid[k+1] - grid[k]
+        (k from 0 for a FreeGrid, from 1 otherwise) on the grid of the guessed horizon *)
+     s_t0loc := tl cg;
+     s_Tloc := let k0 := if is_free (m_grid me) then 0 else 1 in
+               map (fun k => nth (S k) cg o0 -! nth k cg o0) (seq k0 (N - k0)) |}.
 
 End Initial.
 Arguments start_point F : clear implicits.
